@@ -144,12 +144,14 @@ def r2_one_pattern_source(ctx):
 
 def r3_normalisation_agreement(ctx):
     ctx.rule('C20.R3', 'P9 (tier B, template rule over keywords only): the set of normalising str methods (trim*/strip*/case folding) applied to the '
-             'guard in DomainGuard::new equals the set the generated router applies to the Host header (quote! template read from MIR); both '
+             'guard in DomainGuard::new and DomainGuard::matchit_pattern equals the set the generated router applies to the Host header (quote! template read from MIR); both '
              'sides replace "." by "/" and reverse.')
     new = ctx.need('C20.R3', 'DomainGuard::new', ctx.fb.body(CR, DG + '::new'))
     guard_side = set()
-    if new is not None:
-        for bb, t in new.calls():
+    # everything between the user's string and the pattern handed to matchit: the constructor and matchit_pattern (with closures)
+    guard_bodies = ctx.fb.bodies_of_item(CR, DG + '::new') + ctx.fb.bodies_of_item(CR, PATTERN)
+    for gb in guard_bodies:
+        for bb, t in gb.calls():
             m = (callee(t) or '').split('::')[-1]
             if m in NORMALISERS:
                 guard_side.add(m)
